@@ -10,6 +10,7 @@ import (
 	"errors"
 	"fmt"
 	"os"
+	"os/signal"
 	"slices"
 	"sync"
 	"syscall"
@@ -755,6 +756,71 @@ var refreshProp = vp.Register(vp.Prop[RefreshCase]{
 	Check: checkRefresh,
 })
 
-func TestSignal(t *testing.T)  { vp.Run(t, signalProp) }
-func TestRefresh(t *testing.T) { vp.Run(t, refreshProp) }
-func TestReplay(t *testing.T)  { vp.Replay(t) }
+// OSSignalCase sends real signals to the process: the handler is built without
+// a SignalNotifier, i.e. with the default operating-system notifier, and gets
+// a burst of non-shutdown signals immediately followed by a shutdown signal.
+type OSSignalCase struct {
+	Pre      []int `json:"pre"`  // non-shutdown signals sent first (numbers from sigTable)
+	Shut     int   `json:"shut"` // 2 SIGINT or 15 SIGTERM
+	Services int   `json:"services"`
+}
+
+func checkOSSignals(c OSSignalCase) error {
+	// A subscription of the harness's own for everything it sends, so that no
+	// signal can ever terminate the test process.
+	safety := make(chan os.Signal, 64)
+	signal.Notify(safety, syscall.SIGINT, syscall.SIGTERM, syscall.SIGUSR1, syscall.SIGUSR2, syscall.SIGWINCH, syscall.SIGCHLD)
+	defer signal.Stop(safety)
+	var mu sync.Mutex
+	var calls []int
+	h := service.NewSignalHandler(&service.SignalHandlerConfig{Logger: slogutil.NewDiscardLogger(), ShutdownTimeout: time.Second})
+	for i := 0; i < c.Services; i++ {
+		h.Add(&svc{id: i, mu: &mu, calls: &calls})
+	}
+	done := make(chan osutil.ExitCode, 1)
+	go func() { done <- h.Handle(context.Background()) }()
+	pid := syscall.Getpid()
+	for _, p := range c.Pre {
+		_ = syscall.Kill(pid, sigTable[p].(syscall.Signal))
+	}
+	_ = syscall.Kill(pid, sigTable[c.Shut].(syscall.Signal))
+	select {
+	case status := <-done:
+		var want []int
+		for i := c.Services - 1; i >= 0; i-- {
+			want = append(want, i)
+		}
+		mu.Lock()
+		got := slices.Clone(calls)
+		mu.Unlock()
+		if !slices.Equal(got, want) || status != osutil.ExitCodeSuccess {
+			return fmt.Errorf("real signals %v then %d: Shutdown calls %v, status %d; want %v and success", c.Pre, c.Shut, got, status, want)
+		}
+	case <-time.After(15 * time.Second):
+		return fmt.Errorf("HANG: the process received the signals %v and then the shutdown signal %d, but Handle (default OS notifier) has not reacted within 15 s", c.Pre, c.Shut)
+	}
+	vp.Class("os-signals")
+	if len(c.Pre) > 0 {
+		vp.Class("os-signals:non-shutdown-signals-right-before-the-shutdown-signal")
+		vp.NonTrivialStr("c18.os-signals", fmt.Sprint(c))
+		vp.Sample("os-signals", c)
+	}
+	return nil
+}
+
+var osSignalProp = vp.Register(vp.Prop[OSSignalCase]{
+	Kind: "c18.os-signals", Base: 60,
+	Gen: func(t *rapid.T) OSSignalCase {
+		return OSSignalCase{
+			Pre:      rapid.SliceOfN(rapid.SampledFrom([]int{10, 12, 28, 17}), 0, 3).Draw(t, "pre"),
+			Shut:     rapid.SampledFrom([]int{2, 15}).Draw(t, "shut"),
+			Services: rapid.IntRange(0, 3).Draw(t, "services"),
+		}
+	},
+	Check: checkOSSignals,
+})
+
+func TestOSSignals(t *testing.T) { vp.Run(t, osSignalProp) }
+func TestSignal(t *testing.T)    { vp.Run(t, signalProp) }
+func TestRefresh(t *testing.T)   { vp.Run(t, refreshProp) }
+func TestReplay(t *testing.T)    { vp.Replay(t) }
